@@ -307,3 +307,98 @@ def has_top(c):
             return True
         return any(has_top(x) for x in c)
     return c == "T"
+
+
+# ----------------------------------------------------------------------------------------------
+# small-domain comparison of an abstract summary with a specification
+# ----------------------------------------------------------------------------------------------
+def eval_value(v, asg):
+    """evaluate an abstract value under a total assignment of its atoms (dict atom id -> 0/1);
+    None when a TOP bit is met"""
+    if isinstance(v, W):
+        if v.val is not None:
+            return v.val
+        out = 0
+        for k, b in enumerate(v.bits):
+            if b is None:
+                return None
+            if B.eval_bit(b, asg):
+                out |= 1 << k
+        return out
+    if isinstance(v, CS):
+        if v.has_top():
+            return None
+        allzero = all(not B.eval_bit(c, asg) for c in v.clauses)
+        return int(allzero != v.neg)
+    if isinstance(v, Agg):
+        parts = [eval_value(f, asg) for f in v.fields]
+        if any(p is None for p in parts):
+            return None
+        return (v.key, v.variant, tuple(parts))
+    return None
+
+
+def decide_by_enumeration(outs, atom_names, spec, describe_result=lambda x: x, project=None, limit=1 << 16):
+    """For every assignment of the listed atoms: exactly one outcome is enabled, it returns, and its
+    value equals spec(assignment dict name->bit).  Exact (the summary is evaluated, not the program)."""
+    ids = [B.ATOMS.get(nm) for nm in atom_names]
+    if (1 << len(ids)) > limit:
+        return UNDECIDED, "too many atoms (%d)" % len(ids)
+    for vals in itertools.product((0, 1), repeat=len(ids)):
+        asg = dict(zip(ids, vals))
+        named = dict(zip(atom_names, vals))
+        enabled = []
+        for o in outs:
+            ok = True
+            for c in o.pc:
+                cv = eval_value(c, asg)
+                if cv is None:
+                    return UNDECIDED, "path condition with top"
+                if not cv:
+                    ok = False
+                    break
+            if ok:
+                enabled.append(o)
+        want = spec(named)
+        if want == "skip":
+            continue
+        if len(enabled) != 1:
+            return (UNDECIDED if enabled else REFUTED), "%d paths enabled for %s" % (len(enabled), named)
+        o = enabled[0]
+        if o.kind != "return":
+            if want == "panic":
+                continue
+            return REFUTED, "panics (%s) for %s, expected %s" % (o.info.get("msg"), named, describe_result(want))
+        got = eval_value(o.value, asg)
+        if got is None:
+            return UNDECIDED, "result with top"
+        if project is not None:
+            got = project(got)
+        if want == "panic" or got != want:
+            return REFUTED, "for %s the result is %s, the specification says %s" % ({k: v for k, v in named.items() if v}, describe_result(got), describe_result(want))
+    return PROVED, ""
+
+
+def eval_outs(outs, asg):
+    """value of a summary (list of outcomes) under a total assignment: ('value', x) | ('panic', msg) | None"""
+    enabled = []
+    for o in outs:
+        ok = True
+        for c in o.pc:
+            cv = eval_value(c, asg)
+            if cv is None:
+                return None
+            if not cv:
+                ok = False
+                break
+        if ok:
+            enabled.append(o)
+    if len(enabled) != 1:
+        return None
+    o = enabled[0]
+    if o.kind != "return":
+        return ("panic", o.info.get("msg"))
+    v = eval_value(o.value, asg)
+    if v is None:
+        return None
+    return ("value", v)
